@@ -43,7 +43,7 @@ def run(argv):
                 r = subprocess.run(["/venv/bin/python", "-m", "pytest", "-q", "-p", "no:cacheprovider", "-x", "tests"],
                                    cwd=d, env=env, capture_output=True, text=True)
                 tests_ok = r.returncode == 0 and " passed" in r.stdout
-            env = dict(os.environ, CURTSIES_REPO=d)
+            env = dict(os.environ, CURTSIES_REPO=d, VERIF_REPLAY_DIR=os.path.join(d, "replays"))
             r = subprocess.run([os.path.join(VERIF, "check"), prop, "--tier", "quick", "--runs", runs, "--no-evidence", "--quiet"],
                                capture_output=True, text=True, env=env)
             sigs = sorted(set(l.split("replay=")[1].split("/")[-1].split("-")[1] for l in r.stdout.splitlines()
